@@ -22,6 +22,10 @@ import Mathlib.Algebra.Order.Archimedean.Real.Basic
 import Mathlib.Algebra.BigOperators.Fin
 import Mathlib.Data.Nat.Size
 import Mathlib.Algebra.Order.Floor.Semiring
+import Mathlib.Algebra.Order.BigOperators.Group.Finset
+import Mathlib.Data.Fintype.Lattice
+import Mathlib.Data.Set.Finite.Lemmas
+import Mathlib.Order.Bounds.Basic
 import Mathlib.Tactic.Ring
 import Mathlib.Tactic.Abel
 import Mathlib.Tactic.Tauto
@@ -1889,6 +1893,519 @@ theorem keyanc_pair_nat (idx : α → ℕ) (a b : α) :
 
 end L14
 
+/-! ## L15-penalty-composition (property C08) : a penalised model `f + ∑ i, F i` and its constrained optimum
+
+These are lemmas **over contracts**: the hypotheses `H1`–`H3` are the *post-conditions* of
+`PCBO/PCSO.add_constraint_*` (C02/C03: the penalty is `≥ 0`, it is `≥ lam` when the relation is violated, and
+`= 0` is attained by some setting of the constraint's ancillas when the relation holds — the attainment being
+L6/L7-slack), `H4` is the contract of the weight (`lam` larger than the spread of the objective) and `H5` is
+feasibility.  Nothing here is a fact about code.
+
+* `X` : assignments of the model variables, `A` : assignments of the ancillas, `ι` : the (finitely many) constraints;
+* `f : X → ℝ` the objective, `holds i x` the `i`-th relation, `lam i` its weight, `F i x a` its penalty
+  (already multiplied by the weight);
+* `penM f F x a := f x + ∑ i, F i x a` the value of the penalised model.
+
+No finiteness of `X` or `A` is needed for (a)–(c); finiteness of `X` is only used to show that minimisers exist. -/
+
+section L15
+variable {X A ι : Type*} [Fintype ι]
+
+/-- value of the penalised model: objective plus all penalties -/
+def penM (f : X → ℝ) (F : ι → X → A → ℝ) (x : X) (a : A) : ℝ := f x + ∑ i, F i x a
+
+variable {f : X → ℝ} {holds : ι → X → Prop} {lam : ι → ℝ} {F : ι → X → A → ℝ}
+
+theorem penM_def (f : X → ℝ) (F : ι → X → A → ℝ) (x : X) (a : A) :
+    penM f F x a = f x + ∑ i, F i x a := rfl
+
+/-- H1 ⟹ the penalised model never undercuts the objective. -/
+theorem penM_ge_obj (H1 : ∀ i x a, 0 ≤ F i x a) (x : X) (a : A) : f x ≤ penM f F x a := by
+  have : 0 ≤ ∑ i, F i x a := Finset.sum_nonneg fun i _ => H1 i x a
+  unfold penM; linarith
+
+/-- H1, H2 ⟹ a violated constraint costs at least its weight. -/
+theorem penM_ge_obj_add_lam (H1 : ∀ i x a, 0 ≤ F i x a) (H2 : ∀ i x a, ¬ holds i x → lam i ≤ F i x a)
+    {i : ι} {x : X} (hv : ¬ holds i x) (a : A) : f x + lam i ≤ penM f F x a := by
+  have h1 : F i x a ≤ ∑ j, F j x a :=
+    Finset.single_le_sum (f := fun j => F j x a) (fun j _ => H1 j x a) (Finset.mem_univ i)
+  have h2 := H2 i x a hv
+  unfold penM; linarith
+
+/-- all penalties vanish ⟹ the penalised model equals the objective. -/
+theorem penM_eq_obj_of_attained {x : X} {a : A} (h : ∀ i, F i x a = 0) : penM f F x a = f x := by
+  simp [penM, h]
+
+omit [Fintype ι] in
+/-- H4 (at `x = y`) already contains `lam i > 0`. -/
+theorem lam_pos_of_gap [Nonempty X] (H4 : ∀ i x y, f x - f y < lam i) (i : ι) : 0 < lam i := by
+  obtain ⟨x⟩ := ‹Nonempty X›
+  simpa using H4 i x x
+
+/-- **(a), feasibility**: a minimiser of the penalised model satisfies every constraint.
+Only the part of H4 that compares a *feasible* `y` with an arbitrary `x` is used. -/
+theorem penM_minimiser_feasible
+    (H1 : ∀ i x a, 0 ≤ F i x a) (H2 : ∀ i x a, ¬ holds i x → lam i ≤ F i x a)
+    (H3 : ∀ x, (∀ i, holds i x) → ∃ a, ∀ i, F i x a = 0)
+    (H4 : ∀ i x y, (∀ j, holds j y) → f y - f x < lam i)
+    (H5 : ∃ x, ∀ i, holds i x)
+    {xs : X} {as : A} (hmin : ∀ y b, penM f F xs as ≤ penM f F y b) : ∀ i, holds i xs := by
+  intro i
+  by_contra hv
+  obtain ⟨y, hy⟩ := H5
+  obtain ⟨b, hb⟩ := H3 y hy
+  have h1 := penM_ge_obj_add_lam (f := f) H1 H2 hv as
+  have h2 := hmin y b
+  rw [penM_eq_obj_of_attained hb] at h2
+  have h3 := H4 i xs y hy
+  linarith
+
+/-- **(a), value**: at a minimiser the penalised model equals the objective (all penalties vanish in sum). -/
+theorem penM_minimiser_value
+    (H1 : ∀ i x a, 0 ≤ F i x a)
+    (H3 : ∀ x, (∀ i, holds i x) → ∃ a, ∀ i, F i x a = 0)
+    {xs : X} {as : A} (hmin : ∀ y b, penM f F xs as ≤ penM f F y b) (hfeas : ∀ i, holds i xs) :
+    penM f F xs as = f xs := by
+  obtain ⟨b, hb⟩ := H3 xs hfeas
+  have h1 := hmin xs b
+  rw [penM_eq_obj_of_attained hb] at h1
+  exact le_antisymm h1 (penM_ge_obj H1 xs as)
+
+/-- at a feasible minimiser every single penalty vanishes. -/
+theorem penM_minimiser_penalties_zero
+    (H1 : ∀ i x a, 0 ≤ F i x a)
+    (H3 : ∀ x, (∀ i, holds i x) → ∃ a, ∀ i, F i x a = 0)
+    {xs : X} {as : A} (hmin : ∀ y b, penM f F xs as ≤ penM f F y b) (hfeas : ∀ i, holds i xs) :
+    ∀ i, F i xs as = 0 := by
+  have hv := penM_minimiser_value H1 H3 hmin hfeas
+  have hs : ∑ i, F i xs as = 0 := by unfold penM at hv; linarith
+  intro i
+  exact (Finset.sum_eq_zero_iff_of_nonneg fun j _ => H1 j xs as).1 hs i (Finset.mem_univ i)
+
+/-- **(a), optimality**: a feasible minimiser of the penalised model is `f`-optimal among the feasible points. -/
+theorem penM_minimiser_optimal
+    (H1 : ∀ i x a, 0 ≤ F i x a)
+    (H3 : ∀ x, (∀ i, holds i x) → ∃ a, ∀ i, F i x a = 0)
+    {xs : X} {as : A} (hmin : ∀ y b, penM f F xs as ≤ penM f F y b) :
+    ∀ y, (∀ i, holds i y) → f xs ≤ f y := by
+  intro y hy
+  obtain ⟨b, hb⟩ := H3 y hy
+  have h2 := hmin y b
+  rw [penM_eq_obj_of_attained hb] at h2
+  exact (penM_ge_obj H1 xs as).trans h2
+
+/-- **(a)** in one statement: a minimiser `(x*, a*)` of `M = f + ∑ F i` is feasible, `f`-optimal among the
+feasible assignments, `M x* a* = f x*`, and this value is the least element of `f '' {feasible}`. -/
+theorem penM_minimiser_spec
+    (H1 : ∀ i x a, 0 ≤ F i x a) (H2 : ∀ i x a, ¬ holds i x → lam i ≤ F i x a)
+    (H3 : ∀ x, (∀ i, holds i x) → ∃ a, ∀ i, F i x a = 0)
+    (H4 : ∀ i x y, f x - f y < lam i)
+    (H5 : ∃ x, ∀ i, holds i x)
+    {xs : X} {as : A} (hmin : ∀ y b, penM f F xs as ≤ penM f F y b) :
+    (∀ i, holds i xs) ∧ (∀ y, (∀ i, holds i y) → f xs ≤ f y) ∧ penM f F xs as = f xs
+      ∧ IsLeast (f '' {y | ∀ i, holds i y}) (penM f F xs as) := by
+  have hfeas := penM_minimiser_feasible H1 H2 H3 (fun i x y _ => H4 i y x) H5 hmin
+  have hopt := penM_minimiser_optimal H1 H3 hmin
+  have hval := penM_minimiser_value H1 H3 hmin hfeas
+  refine ⟨hfeas, hopt, hval, ?_, ?_⟩
+  · exact ⟨xs, hfeas, hval.symm⟩
+  · rintro _ ⟨y, hy, rfl⟩
+    rw [hval]; exact hopt y hy
+
+/-- lower bound used for (b): under H1, H2 and the **non-strict** weight condition, every value of the
+penalised model is at least the objective at any feasible `f`-optimal point. -/
+theorem penM_ge_of_feasible_optimal
+    (H1 : ∀ i x a, 0 ≤ F i x a) (H2 : ∀ i x a, ¬ holds i x → lam i ≤ F i x a)
+    (H4 : ∀ i x y, (∀ j, holds j y) → f y - f x ≤ lam i)
+    {x : X} (hx : ∀ i, holds i x) (hopt : ∀ y, (∀ i, holds i y) → f x ≤ f y) (y : X) (b : A) :
+    f x ≤ penM f F y b := by
+  by_cases hy : ∀ i, holds i y
+  · exact (hopt y hy).trans (penM_ge_obj H1 y b)
+  · obtain ⟨i, hi⟩ := not_forall.1 hy
+    have h1 := penM_ge_obj_add_lam (f := f) H1 H2 hi b
+    have h2 := H4 i y x hx
+    linarith
+
+/-- **(b)**: every feasible `f`-optimal `x`, together with ancillas `a` at which all penalties vanish
+(they exist by H3), minimises the penalised model.  The non-strict weight condition suffices. -/
+theorem penM_minimiser_of_feasible_optimal
+    (H1 : ∀ i x a, 0 ≤ F i x a) (H2 : ∀ i x a, ¬ holds i x → lam i ≤ F i x a)
+    (H4 : ∀ i x y, (∀ j, holds j y) → f y - f x ≤ lam i)
+    {x : X} {a : A} (hx : ∀ i, holds i x) (hopt : ∀ y, (∀ i, holds i y) → f x ≤ f y)
+    (ha : ∀ i, F i x a = 0) : ∀ y b, penM f F x a ≤ penM f F y b := by
+  intro y b
+  rw [penM_eq_obj_of_attained ha]
+  exact penM_ge_of_feasible_optimal H1 H2 H4 hx hopt y b
+
+/-- (b), existential form with H3 and the strict H4 exactly as in (a). -/
+theorem penM_exists_minimiser_of_feasible_optimal
+    (H1 : ∀ i x a, 0 ≤ F i x a) (H2 : ∀ i x a, ¬ holds i x → lam i ≤ F i x a)
+    (H3 : ∀ x, (∀ i, holds i x) → ∃ a, ∀ i, F i x a = 0)
+    (H4 : ∀ i x y, f x - f y < lam i)
+    {x : X} (hx : ∀ i, holds i x) (hopt : ∀ y, (∀ i, holds i y) → f x ≤ f y) :
+    ∃ a, (∀ i, F i x a = 0) ∧ penM f F x a = f x ∧ ∀ y b, penM f F x a ≤ penM f F y b := by
+  obtain ⟨a, ha⟩ := H3 x hx
+  exact ⟨a, ha, penM_eq_obj_of_attained ha,
+    penM_minimiser_of_feasible_optimal H1 H2 (fun i x y _ => (H4 i y x).le) hx hopt ha⟩
+
+/-- **(c)**: `v` is the minimum value of the penalised model iff it is the constrained optimum of `f`. -/
+theorem penM_isLeast_iff
+    (H1 : ∀ i x a, 0 ≤ F i x a) (H2 : ∀ i x a, ¬ holds i x → lam i ≤ F i x a)
+    (H3 : ∀ x, (∀ i, holds i x) → ∃ a, ∀ i, F i x a = 0)
+    (H4 : ∀ i x y, f x - f y < lam i)
+    (H5 : ∃ x, ∀ i, holds i x) (v : ℝ) :
+    IsLeast (Set.range fun p : X × A => penM f F p.1 p.2) v ↔ IsLeast (f '' {y | ∀ i, holds i y}) v := by
+  constructor
+  · rintro ⟨⟨⟨xs, as⟩, rfl⟩, hlb⟩
+    have hmin : ∀ y b, penM f F xs as ≤ penM f F y b := fun y b => hlb ⟨(y, b), rfl⟩
+    exact (penM_minimiser_spec H1 H2 H3 H4 H5 hmin).2.2.2
+  · rintro ⟨⟨x, hx, rfl⟩, hlb⟩
+    have hopt : ∀ y, (∀ i, holds i y) → f x ≤ f y := fun y hy => hlb ⟨y, hy, rfl⟩
+    obtain ⟨a, -, hval, hmin⟩ := penM_exists_minimiser_of_feasible_optimal H1 H2 H3 H4 hx hopt
+    refine ⟨⟨(x, a), hval⟩, ?_⟩
+    rintro _ ⟨⟨y, b⟩, rfl⟩
+    rw [← hval]; exact hmin y b
+
+/-- (c), weak form: with the **non-strict** weight condition `sup f − inf f ≤ lam i` the minimum *value* is still
+the constrained optimum (but minimisers of the penalised model need not be feasible any more). -/
+theorem penM_isLeast_of_le
+    (H1 : ∀ i x a, 0 ≤ F i x a) (H2 : ∀ i x a, ¬ holds i x → lam i ≤ F i x a)
+    (H3 : ∀ x, (∀ i, holds i x) → ∃ a, ∀ i, F i x a = 0)
+    (H4 : ∀ i x y, f x - f y ≤ lam i) {v : ℝ}
+    (hv : IsLeast (f '' {y | ∀ i, holds i y}) v) :
+    IsLeast (Set.range fun p : X × A => penM f F p.1 p.2) v := by
+  obtain ⟨⟨x, hx, rfl⟩, hlb⟩ := hv
+  have hopt : ∀ y, (∀ i, holds i y) → f x ≤ f y := fun y hy => hlb ⟨y, hy, rfl⟩
+  obtain ⟨a, ha⟩ := H3 x hx
+  refine ⟨⟨(x, a), penM_eq_obj_of_attained ha⟩, ?_⟩
+  rintro _ ⟨⟨y, b⟩, rfl⟩
+  exact penM_ge_of_feasible_optimal H1 H2 (fun i x y _ => H4 i y x) hx hopt y b
+
+omit [Fintype ι] in
+/-- finitely many assignments and feasibility ⟹ a feasible `f`-optimal assignment exists. -/
+theorem exists_feasible_optimal [Finite X] (f : X → ℝ) (H5 : ∃ x, ∀ i, holds i x) :
+    ∃ x, (∀ i, holds i x) ∧ ∀ y, (∀ i, holds i y) → f x ≤ f y := by
+  obtain ⟨x, hx, hmin⟩ := Set.exists_min_image {y | ∀ i, holds i y} f (Set.toFinite _) H5
+  exact ⟨x, hx, hmin⟩
+
+/-- minimisers of the penalised model exist (only `X` has to be finite: the ancillas come from H3). -/
+theorem penM_exists_minimiser [Finite X]
+    (H1 : ∀ i x a, 0 ≤ F i x a) (H2 : ∀ i x a, ¬ holds i x → lam i ≤ F i x a)
+    (H3 : ∀ x, (∀ i, holds i x) → ∃ a, ∀ i, F i x a = 0)
+    (H4 : ∀ i x y, f x - f y < lam i)
+    (H5 : ∃ x, ∀ i, holds i x) :
+    ∃ xs as, (∀ y b, penM f F xs as ≤ penM f F y b) ∧ (∀ i, holds i xs)
+      ∧ (∀ y, (∀ i, holds i y) → f xs ≤ f y) ∧ penM f F xs as = f xs := by
+  obtain ⟨x, hx, hopt⟩ := exists_feasible_optimal f H5
+  obtain ⟨a, -, hval, hmin⟩ := penM_exists_minimiser_of_feasible_optimal H1 H2 H3 H4 hx hopt
+  exact ⟨x, a, hmin, hx, hopt, hval⟩
+
+/-- **(c)**, minimiser form: the value at any minimiser of the penalised model equals the objective at any
+feasible `f`-optimal assignment. -/
+theorem penM_min_eq_constrained_opt
+    (H1 : ∀ i x a, 0 ≤ F i x a) (H2 : ∀ i x a, ¬ holds i x → lam i ≤ F i x a)
+    (H3 : ∀ x, (∀ i, holds i x) → ∃ a, ∀ i, F i x a = 0)
+    (H4 : ∀ i x y, f x - f y < lam i)
+    (H5 : ∃ x, ∀ i, holds i x)
+    {xs : X} {as : A} (hmin : ∀ y b, penM f F xs as ≤ penM f F y b)
+    {x : X} (hx : ∀ i, holds i x) (hopt : ∀ y, (∀ i, holds i y) → f x ≤ f y) :
+    penM f F xs as = f x := by
+  obtain ⟨hf, ho, hv, -⟩ := penM_minimiser_spec H1 H2 H3 H4 H5 hmin
+  rw [hv]
+  exact le_antisymm (ho x hx) (hopt xs hf)
+
+end L15
+
+/-! ### L15, single constraint -/
+
+section L15single
+variable {X A : Type*} {f : X → ℝ} {holds : X → Prop} {lam : ℝ} {F : X → A → ℝ}
+
+theorem penM_unit (f : X → ℝ) (F : X → A → ℝ) (x : X) (a : A) :
+    penM (ι := Unit) f (fun _ => F) x a = f x + F x a := by
+  simp [penM]
+
+/-- **(a)** for one constraint: a minimiser of `f x + F x a` satisfies the relation, is `f`-optimal among the
+assignments satisfying it, and the two values agree. -/
+theorem pen1_minimiser_spec
+    (H1 : ∀ x a, 0 ≤ F x a) (H2 : ∀ x a, ¬ holds x → lam ≤ F x a)
+    (H3 : ∀ x, holds x → ∃ a, F x a = 0)
+    (H4 : ∀ x y, f x - f y < lam)
+    (H5 : ∃ x, holds x)
+    {xs : X} {as : A} (hmin : ∀ y b, f xs + F xs as ≤ f y + F y b) :
+    holds xs ∧ (∀ y, holds y → f xs ≤ f y) ∧ f xs + F xs as = f xs ∧ F xs as = 0
+      ∧ IsLeast (f '' {y | holds y}) (f xs + F xs as) := by
+  have h := penM_minimiser_spec (ι := Unit) (f := f) (holds := fun _ => holds) (lam := fun _ => lam)
+    (F := fun _ => F) (fun _ => H1) (fun _ => H2)
+    (fun x hx => (H3 x (hx ())).imp fun a ha _ => ha) (fun _ => H4)
+    (H5.imp fun x hx _ => hx) (xs := xs) (as := as) (by simpa only [penM_unit] using hmin)
+  simp only [penM_unit, forall_const] at h
+  obtain ⟨h1, h2, h3, h4⟩ := h
+  exact ⟨h1, h2, h3, by linarith, h4⟩
+
+/-- **(b)** for one constraint. -/
+theorem pen1_minimiser_of_feasible_optimal
+    (H1 : ∀ x a, 0 ≤ F x a) (H2 : ∀ x a, ¬ holds x → lam ≤ F x a)
+    (H4 : ∀ x y, f x - f y ≤ lam)
+    {x : X} {a : A} (hx : holds x) (hopt : ∀ y, holds y → f x ≤ f y) (ha : F x a = 0) :
+    ∀ y b, f x + F x a ≤ f y + F y b := by
+  have h := penM_minimiser_of_feasible_optimal (ι := Unit) (f := f) (holds := fun _ => holds)
+    (lam := fun _ => lam) (F := fun _ => F) (fun _ => H1) (fun _ => H2) (fun _ x y _ => H4 y x)
+    (x := x) (a := a) (fun _ => hx) (fun y hy => hopt y (hy ())) (fun _ => ha)
+  simpa only [penM_unit] using h
+
+/-- **(c)** for one constraint. -/
+theorem pen1_isLeast_iff
+    (H1 : ∀ x a, 0 ≤ F x a) (H2 : ∀ x a, ¬ holds x → lam ≤ F x a)
+    (H3 : ∀ x, holds x → ∃ a, F x a = 0)
+    (H4 : ∀ x y, f x - f y < lam)
+    (H5 : ∃ x, holds x) (v : ℝ) :
+    IsLeast (Set.range fun p : X × A => f p.1 + F p.1 p.2) v ↔ IsLeast (f '' {y | holds y}) v := by
+  have h := penM_isLeast_iff (ι := Unit) (f := f) (holds := fun _ => holds) (lam := fun _ => lam)
+    (F := fun _ => F) (fun _ => H1) (fun _ => H2)
+    (fun x hx => (H3 x (hx ())).imp fun a ha _ => ha) (fun _ => H4)
+    (H5.imp fun x hx _ => hx) v
+  simpa only [penM_unit, forall_const] using h
+
+end L15single
+
+/-! ### L15, per-constraint attainment with disjoint ancilla blocks -/
+
+section L15blocks
+variable {X ι : Type*}
+
+/-- ancillas as a product of blocks `A = ∀ i, B i`, the `i`-th penalty reading only its own block:
+per-constraint attainment gives joint attainment (H3). -/
+theorem joint_attainment_of_blocks {B : ι → Type*} {holds : ι → X → Prop} {G : ∀ i, X → B i → ℝ}
+    (h : ∀ i x, holds i x → ∃ b : B i, G i x b = 0) :
+    ∀ x, (∀ i, holds i x) → ∃ a : ∀ i, B i, ∀ i, G i x (a i) = 0 :=
+  fun x hx => ⟨fun i => (h i x (hx i)).choose, fun i => (h i x (hx i)).choose_spec⟩
+
+/-- the same with one shared ancilla space `A = L → V` (labels `L`, values `V`): the `i`-th penalty only reads the
+labels in `blk i`, the blocks are pairwise disjoint; then per-constraint attainment gives joint attainment. -/
+theorem joint_attainment_of_disjoint_support {L V : Type*} {holds : ι → X → Prop}
+    {F : ι → X → (L → V) → ℝ} (blk : ι → Set L) (a₀ : L → V)
+    (hdisj : ∀ i j l, l ∈ blk i → l ∈ blk j → i = j)
+    (hloc : ∀ i x (a a' : L → V), (∀ l ∈ blk i, a l = a' l) → F i x a = F i x a')
+    (h : ∀ i x, holds i x → ∃ a, F i x a = 0) :
+    ∀ x, (∀ i, holds i x) → ∃ a, ∀ i, F i x a = 0 := by
+  classical
+  intro x hx
+  let c : ι → (L → V) := fun i => (h i x (hx i)).choose
+  have hc : ∀ i, F i x (c i) = 0 := fun i => (h i x (hx i)).choose_spec
+  refine ⟨fun l => if hl : ∃ i, l ∈ blk i then c hl.choose l else a₀ l, fun i => ?_⟩
+  rw [← hc i]
+  apply hloc
+  intro l hl
+  have hex : ∃ j, l ∈ blk j := ⟨i, hl⟩
+  have : hex.choose = i := hdisj _ _ l hex.choose_spec hl
+  simp only [dif_pos hex, this]
+
+
+/-- **(a)+(c)** with per-constraint attainment and product ancillas `A = ∀ i, B i` (`F i x a = G i x (a i)`). -/
+theorem penM_blocks_minimiser_spec [Fintype ι] {B : ι → Type*} {f : X → ℝ} {holds : ι → X → Prop}
+    {lam : ι → ℝ} {G : ∀ i, X → B i → ℝ}
+    (H1 : ∀ i x b, 0 ≤ G i x b) (H2 : ∀ i x b, ¬ holds i x → lam i ≤ G i x b)
+    (H3 : ∀ i x, holds i x → ∃ b : B i, G i x b = 0)
+    (H4 : ∀ i x y, f x - f y < lam i)
+    (H5 : ∃ x, ∀ i, holds i x)
+    {xs : X} {as : ∀ i, B i}
+    (hmin : ∀ y (b : ∀ i, B i), f xs + ∑ i, G i xs (as i) ≤ f y + ∑ i, G i y (b i)) :
+    (∀ i, holds i xs) ∧ (∀ y, (∀ i, holds i y) → f xs ≤ f y) ∧ f xs + ∑ i, G i xs (as i) = f xs
+      ∧ (∀ i, G i xs (as i) = 0)
+      ∧ IsLeast (f '' {y | ∀ i, holds i y}) (f xs + ∑ i, G i xs (as i)) := by
+  have H3' := joint_attainment_of_blocks H3
+  have H1' : ∀ i x (a : ∀ i, B i), 0 ≤ G i x (a i) := fun i x a => H1 i x (a i)
+  have H2' : ∀ i x (a : ∀ i, B i), ¬ holds i x → lam i ≤ G i x (a i) := fun i x a => H2 i x (a i)
+  have hmin' : ∀ y (b : ∀ i, B i), penM f (fun i x (a : ∀ i, B i) => G i x (a i)) xs as
+      ≤ penM f (fun i x (a : ∀ i, B i) => G i x (a i)) y b := hmin
+  obtain ⟨h1, h2, h3, h4⟩ := penM_minimiser_spec H1' H2' H3' H4 H5 hmin'
+  exact ⟨h1, h2, h3, penM_minimiser_penalties_zero H1' H3' hmin' h1, h4⟩
+
+/-- **(b)** with product ancillas: a feasible `f`-optimal `x` with per-block attaining ancillas minimises the
+penalised model. -/
+theorem penM_blocks_minimiser_of_feasible_optimal [Fintype ι] {B : ι → Type*} {f : X → ℝ}
+    {holds : ι → X → Prop} {lam : ι → ℝ} {G : ∀ i, X → B i → ℝ}
+    (H1 : ∀ i x b, 0 ≤ G i x b) (H2 : ∀ i x b, ¬ holds i x → lam i ≤ G i x b)
+    (H4 : ∀ i x y, f x - f y ≤ lam i)
+    {x : X} {a : ∀ i, B i} (hx : ∀ i, holds i x) (hopt : ∀ y, (∀ i, holds i y) → f x ≤ f y)
+    (ha : ∀ i, G i x (a i) = 0) :
+    ∀ y (b : ∀ i, B i), f x + ∑ i, G i x (a i) ≤ f y + ∑ i, G i y (b i) :=
+  penM_minimiser_of_feasible_optimal (F := fun i x (a : ∀ i, B i) => G i x (a i))
+    (fun i x a => H1 i x (a i)) (fun i x a => H2 i x (a i)) (fun i x y _ => H4 i y x) hx hopt ha
+
+/-- **(c)** with per-constraint attainment and product ancillas. -/
+theorem penM_blocks_isLeast_iff [Fintype ι] {B : ι → Type*} {f : X → ℝ} {holds : ι → X → Prop}
+    {lam : ι → ℝ} {G : ∀ i, X → B i → ℝ}
+    (H1 : ∀ i x b, 0 ≤ G i x b) (H2 : ∀ i x b, ¬ holds i x → lam i ≤ G i x b)
+    (H3 : ∀ i x, holds i x → ∃ b : B i, G i x b = 0)
+    (H4 : ∀ i x y, f x - f y < lam i)
+    (H5 : ∃ x, ∀ i, holds i x) (v : ℝ) :
+    IsLeast (Set.range fun p : X × (∀ i, B i) => f p.1 + ∑ i, G i p.1 (p.2 i)) v
+      ↔ IsLeast (f '' {y | ∀ i, holds i y}) v :=
+  penM_isLeast_iff (F := fun i x (a : ∀ i, B i) => G i x (a i))
+    (fun i x a => H1 i x (a i)) (fun i x a => H2 i x (a i)) (joint_attainment_of_blocks H3) H4 H5 v
+
+end L15blocks
+
+/-! ## L16-reduction-composition (property C01) : a model and its reduced (degree-reduced / converted) form
+
+Lemmas **over contracts** again: `R1`, `R2` are what is established per reduction step (deductively where the
+verifier reaches, otherwise by the bounded stand-in of C01); nothing here is a fact about code.
+
+* `M : X → ℝ` the model, `D : S → ℝ` the reduced form (`S` = assignments of model variables *and* ancillas),
+  `conv : S → X` the conversion (forget the ancillas / map the solution back);
+* `R1 : ∀ s, M (conv s) ≤ D s` (the reduced form never undercuts), `R2 : ∀ x, ∃ s, conv s = x ∧ D s = M x`
+  (every assignment has an exact extension). -/
+
+section L16
+variable {X S : Type*} {M : X → ℝ} {D : S → ℝ} {conv : S → X}
+
+/-- a minimiser of the reduced form converts to a minimiser of the model, with the same value. -/
+theorem red_minimiser_conv (R1 : ∀ s, M (conv s) ≤ D s) (R2 : ∀ x, ∃ s, conv s = x ∧ D s = M x)
+    {s : S} (hmin : ∀ s', D s ≤ D s') : (∀ x, M (conv s) ≤ M x) ∧ D s = M (conv s) := by
+  have hle : ∀ x, D s ≤ M x := fun x => by
+    obtain ⟨s', -, hs'⟩ := R2 x
+    exact hs' ▸ hmin s'
+  exact ⟨fun x => (R1 s).trans (hle x), le_antisymm (hle _) (R1 s)⟩
+
+/-- every minimiser of the model is the conversion of a minimiser of the reduced form, with the same value. -/
+theorem red_minimiser_lift (R1 : ∀ s, M (conv s) ≤ D s) (R2 : ∀ x, ∃ s, conv s = x ∧ D s = M x)
+    {x : X} (hmin : ∀ y, M x ≤ M y) : ∃ s, conv s = x ∧ D s = M x ∧ ∀ s', D s ≤ D s' := by
+  obtain ⟨s, hs, hD⟩ := R2 x
+  exact ⟨s, hs, hD, fun s' => hD ▸ (hmin (conv s')).trans (R1 s')⟩
+
+/-- `min D = min M`. -/
+theorem red_isLeast_iff (R1 : ∀ s, M (conv s) ≤ D s) (R2 : ∀ x, ∃ s, conv s = x ∧ D s = M x) (v : ℝ) :
+    IsLeast (Set.range D) v ↔ IsLeast (Set.range M) v := by
+  constructor
+  · rintro ⟨⟨s, rfl⟩, hlb⟩
+    obtain ⟨h1, h2⟩ := red_minimiser_conv R1 R2 (s := s) fun s' => hlb ⟨s', rfl⟩
+    refine ⟨⟨conv s, h2.symm⟩, ?_⟩
+    rintro _ ⟨x, rfl⟩
+    rw [h2]; exact h1 x
+  · rintro ⟨⟨x, rfl⟩, hlb⟩
+    obtain ⟨s, -, hD, hmin⟩ := red_minimiser_lift R1 R2 (x := x) fun y => hlb ⟨y, rfl⟩
+    refine ⟨⟨s, hD⟩, ?_⟩
+    rintro _ ⟨s', rfl⟩
+    rw [← hD]; exact hmin s'
+
+/-- `min D = min M`, minimiser form. -/
+theorem red_min_eq (R1 : ∀ s, M (conv s) ≤ D s) (R2 : ∀ x, ∃ s, conv s = x ∧ D s = M x)
+    {s : S} (hs : ∀ s', D s ≤ D s') {x : X} (hx : ∀ y, M x ≤ M y) : D s = M x := by
+  obtain ⟨h1, h2⟩ := red_minimiser_conv R1 R2 hs
+  rw [h2]; exact le_antisymm (h1 x) (hx _)
+
+/-- the set of minimisers of the model is exactly the image under `conv` of the set of minimisers of the reduced form. -/
+theorem red_argmin_image (R1 : ∀ s, M (conv s) ≤ D s) (R2 : ∀ x, ∃ s, conv s = x ∧ D s = M x) :
+    conv '' {s | ∀ s', D s ≤ D s'} = {x | ∀ y, M x ≤ M y} := by
+  ext x
+  constructor
+  · rintro ⟨s, hs, rfl⟩
+    exact (red_minimiser_conv R1 R2 hs).1
+  · intro hx
+    obtain ⟨s, hs, -, hmin⟩ := red_minimiser_lift R1 R2 hx
+    exact ⟨s, hmin, hs⟩
+
+/-- minimisers of the reduced form exist as soon as the *model* has finitely many assignments. -/
+theorem red_exists_minimiser [Finite X] [Nonempty X] (R1 : ∀ s, M (conv s) ≤ D s)
+    (R2 : ∀ x, ∃ s, conv s = x ∧ D s = M x) : ∃ s, ∀ s', D s ≤ D s' := by
+  obtain ⟨x, hx⟩ := Finite.exists_min M
+  obtain ⟨s, -, -, hmin⟩ := red_minimiser_lift R1 R2 hx
+  exact ⟨s, hmin⟩
+
+/-! ### reduction steps compose -/
+
+/-- R1 for two successive steps `X ← S ← T`. -/
+theorem red_R1_comp {T : Type*} {E : T → ℝ} {conv' : T → S}
+    (R1 : ∀ s, M (conv s) ≤ D s) (R1' : ∀ t, D (conv' t) ≤ E t) :
+    ∀ t, M ((conv ∘ conv') t) ≤ E t := fun t => (R1 (conv' t)).trans (R1' t)
+
+/-- R2 for two successive steps `X ← S ← T`. -/
+theorem red_R2_comp {T : Type*} {E : T → ℝ} {conv' : T → S}
+    (R2 : ∀ x, ∃ s, conv s = x ∧ D s = M x) (R2' : ∀ s, ∃ t, conv' t = s ∧ E t = D s) :
+    ∀ x, ∃ t, (conv ∘ conv') t = x ∧ E t = M x := by
+  intro x
+  obtain ⟨s, hs, hD⟩ := R2 x
+  obtain ⟨t, ht, hE⟩ := R2' s
+  exact ⟨t, by simp [ht, hs], hE.trans hD⟩
+
+/-- the trivial step. -/
+theorem red_R_id (M : X → ℝ) : (∀ x, M (id x) ≤ M x) ∧ ∀ x, ∃ s, id s = x ∧ M s = M x :=
+  ⟨fun _ => le_rfl, fun x => ⟨x, rfl, rfl⟩⟩
+
+/-- an affine change of the objective (`to_qubo` / `to_quso` style offsets and positive scalings) keeps R1, R2. -/
+theorem red_R_affine (R1 : ∀ s, M (conv s) ≤ D s) (R2 : ∀ x, ∃ s, conv s = x ∧ D s = M x)
+    {c : ℝ} (hc : 0 ≤ c) (d : ℝ) :
+    (∀ s, c * M (conv s) + d ≤ c * D s + d) ∧ ∀ x, ∃ s, conv s = x ∧ c * D s + d = c * M x + d :=
+  ⟨fun s => by have := mul_le_mul_of_nonneg_left (R1 s) hc; linarith,
+   fun x => by obtain ⟨s, hs, hD⟩ := R2 x; exact ⟨s, hs, by rw [hD]⟩⟩
+
+/-! ### L16 ∘ L15 : the reduced form of a penalised model -/
+
+variable {A ι : Type*} [Fintype ι] {f : X → ℝ} {holds : ι → X → Prop} {lam : ι → ℝ}
+  {F : ι → X → A → ℝ} {D' : S → ℝ} {conv' : S → X × A}
+
+/-- if the model is itself `f + penalties` (L15) and `D'` is its reduced form (R1, R2), then every minimiser of the
+reduced form converts to a feasible, `f`-optimal assignment, and the minimum of the reduced form is the
+constrained optimum of `f`. -/
+theorem red_penM_minimiser_spec
+    (H1 : ∀ i x a, 0 ≤ F i x a) (H2 : ∀ i x a, ¬ holds i x → lam i ≤ F i x a)
+    (H3 : ∀ x, (∀ i, holds i x) → ∃ a, ∀ i, F i x a = 0)
+    (H4 : ∀ i x y, f x - f y < lam i)
+    (H5 : ∃ x, ∀ i, holds i x)
+    (R1 : ∀ s, penM f F (conv' s).1 (conv' s).2 ≤ D' s)
+    (R2 : ∀ p : X × A, ∃ s, conv' s = p ∧ D' s = penM f F p.1 p.2)
+    {s : S} (hmin : ∀ s', D' s ≤ D' s') :
+    (∀ i, holds i (conv' s).1) ∧ (∀ y, (∀ i, holds i y) → f (conv' s).1 ≤ f y)
+      ∧ D' s = f (conv' s).1 ∧ IsLeast (f '' {y | ∀ i, holds i y}) (D' s) := by
+  obtain ⟨h1, h2⟩ := red_minimiser_conv (M := fun p : X × A => penM f F p.1 p.2) R1 R2 hmin
+  obtain ⟨g1, g2, g3, g4⟩ := penM_minimiser_spec H1 H2 H3 H4 H5
+    (xs := (conv' s).1) (as := (conv' s).2) fun y b => h1 (y, b)
+  exact ⟨g1, g2, h2.trans g3, h2 ▸ g4⟩
+
+/-- conversely every feasible `f`-optimal assignment is the conversion of a minimiser of the reduced form. -/
+theorem red_penM_lift
+    (H1 : ∀ i x a, 0 ≤ F i x a) (H2 : ∀ i x a, ¬ holds i x → lam i ≤ F i x a)
+    (H3 : ∀ x, (∀ i, holds i x) → ∃ a, ∀ i, F i x a = 0)
+    (H4 : ∀ i x y, f x - f y < lam i)
+    (R1 : ∀ s, penM f F (conv' s).1 (conv' s).2 ≤ D' s)
+    (R2 : ∀ p : X × A, ∃ s, conv' s = p ∧ D' s = penM f F p.1 p.2)
+    {x : X} (hx : ∀ i, holds i x) (hopt : ∀ y, (∀ i, holds i y) → f x ≤ f y) :
+    ∃ s, (conv' s).1 = x ∧ D' s = f x ∧ ∀ s', D' s ≤ D' s' := by
+  obtain ⟨a, -, hval, hmin⟩ := penM_exists_minimiser_of_feasible_optimal H1 H2 H3 H4 hx hopt
+  obtain ⟨s, hs, hD, hmin'⟩ := red_minimiser_lift (M := fun p : X × A => penM f F p.1 p.2) R1 R2
+    (x := (x, a)) fun p => hmin p.1 p.2
+  exact ⟨s, by rw [hs], hD.trans hval, hmin'⟩
+
+/-- the minimum of the reduced form of a penalised model is the constrained optimum of `f`. -/
+theorem red_penM_isLeast_iff
+    (H1 : ∀ i x a, 0 ≤ F i x a) (H2 : ∀ i x a, ¬ holds i x → lam i ≤ F i x a)
+    (H3 : ∀ x, (∀ i, holds i x) → ∃ a, ∀ i, F i x a = 0)
+    (H4 : ∀ i x y, f x - f y < lam i)
+    (H5 : ∃ x, ∀ i, holds i x)
+    (R1 : ∀ s, penM f F (conv' s).1 (conv' s).2 ≤ D' s)
+    (R2 : ∀ p : X × A, ∃ s, conv' s = p ∧ D' s = penM f F p.1 p.2) (v : ℝ) :
+    IsLeast (Set.range D') v ↔ IsLeast (f '' {y | ∀ i, holds i y}) v :=
+  (red_isLeast_iff (M := fun p : X × A => penM f F p.1 p.2) R1 R2 v).trans
+    (penM_isLeast_iff H1 H2 H3 H4 H5 v)
+
+/-- existence: finitely many model assignments and feasibility ⟹ the reduced form has a minimiser (and by
+`red_penM_minimiser_spec` it converts to a feasible optimal assignment). -/
+theorem red_penM_exists_minimiser [Finite X]
+    (H1 : ∀ i x a, 0 ≤ F i x a) (H2 : ∀ i x a, ¬ holds i x → lam i ≤ F i x a)
+    (H3 : ∀ x, (∀ i, holds i x) → ∃ a, ∀ i, F i x a = 0)
+    (H4 : ∀ i x y, f x - f y < lam i)
+    (H5 : ∃ x, ∀ i, holds i x)
+    (R1 : ∀ s, penM f F (conv' s).1 (conv' s).2 ≤ D' s)
+    (R2 : ∀ p : X × A, ∃ s, conv' s = p ∧ D' s = penM f F p.1 p.2) :
+    ∃ s, ∀ s', D' s ≤ D' s' := by
+  obtain ⟨x, hx, hopt⟩ := exists_feasible_optimal f H5
+  obtain ⟨s, -, -, hmin⟩ := red_penM_lift H1 H2 H3 H4 R1 R2 hx hopt
+  exact ⟨s, hmin⟩
+
+end L16
+
 /-! ## Sanity instantiations at `α := ℕ`, `R := ℝ` / `ℚ` -/
 
 section Inst
@@ -1958,6 +2475,22 @@ example : keyanc (fun l : ℕ ⊕ ℕ => l.isRight = true) (Sum.elim (fun _ => 0
 example (a b : List ℕ) (isanc : ℕ → Prop) [DecidablePred isanc] (ancidx : ℕ → ℤ) :
     keyanc isanc ancidx (bsq (a ++ b)) = max (keyanc isanc ancidx a) (keyanc isanc ancidx b) := by
   rw [keyanc_bsq, keyanc_append]
+
+/-! L15 / L16: the hypotheses are satisfiable (one boolean variable, one constraint `x = true` with penalty `2·(1 - x)`,
+objective `f x = x`, no ancillas), so the composition theorems are not vacuous. -/
+
+example {xs : Bool} {as : Unit}
+    (hmin : ∀ (y : Bool) (_ : Unit), (if xs then (1 : ℝ) else 0) + (if xs then 0 else 2)
+      ≤ (if y then (1 : ℝ) else 0) + (if y then 0 else 2)) : xs = true :=
+  (pen1_minimiser_spec (f := fun x : Bool => if x then (1 : ℝ) else 0) (holds := fun x => x = true)
+    (lam := 2) (F := fun x (_ : Unit) => if x then (0 : ℝ) else 2)
+    (by rintro (_ | _) _ <;> norm_num) (by rintro (_ | _) _ <;> simp)
+    (by rintro (_ | _) h <;> simp at h ⊢) (by rintro (_ | _) (_ | _) <;> norm_num)
+    ⟨true, rfl⟩ (xs := xs) (as := as) hmin).1
+
+example {X S : Type*} (M : X → ℝ) (D : S → ℝ) (conv : S → X) (R1 : ∀ s, M (conv s) ≤ D s)
+    (R2 : ∀ x, ∃ s, conv s = x ∧ D s = M x) (s : S) (hs : ∀ s', D s ≤ D s') (x : X) :
+    M (conv s) ≤ M x := (red_minimiser_conv R1 R2 hs).1 x
 
 end Inst
 
@@ -2230,3 +2763,44 @@ end Qvc
 #print axioms Qvc.keyanc_append_anc_le
 #print axioms Qvc.keyanc_singleton_nat
 #print axioms Qvc.keyanc_pair_nat
+#print axioms Qvc.penM_def
+#print axioms Qvc.penM_ge_obj
+#print axioms Qvc.penM_ge_obj_add_lam
+#print axioms Qvc.penM_eq_obj_of_attained
+#print axioms Qvc.lam_pos_of_gap
+#print axioms Qvc.penM_minimiser_feasible
+#print axioms Qvc.penM_minimiser_value
+#print axioms Qvc.penM_minimiser_penalties_zero
+#print axioms Qvc.penM_minimiser_optimal
+#print axioms Qvc.penM_minimiser_spec
+#print axioms Qvc.penM_ge_of_feasible_optimal
+#print axioms Qvc.penM_minimiser_of_feasible_optimal
+#print axioms Qvc.penM_exists_minimiser_of_feasible_optimal
+#print axioms Qvc.penM_isLeast_iff
+#print axioms Qvc.penM_isLeast_of_le
+#print axioms Qvc.exists_feasible_optimal
+#print axioms Qvc.penM_exists_minimiser
+#print axioms Qvc.penM_min_eq_constrained_opt
+#print axioms Qvc.penM_unit
+#print axioms Qvc.pen1_minimiser_spec
+#print axioms Qvc.pen1_minimiser_of_feasible_optimal
+#print axioms Qvc.pen1_isLeast_iff
+#print axioms Qvc.joint_attainment_of_blocks
+#print axioms Qvc.joint_attainment_of_disjoint_support
+#print axioms Qvc.penM_blocks_minimiser_spec
+#print axioms Qvc.penM_blocks_minimiser_of_feasible_optimal
+#print axioms Qvc.penM_blocks_isLeast_iff
+#print axioms Qvc.red_minimiser_conv
+#print axioms Qvc.red_minimiser_lift
+#print axioms Qvc.red_isLeast_iff
+#print axioms Qvc.red_min_eq
+#print axioms Qvc.red_argmin_image
+#print axioms Qvc.red_exists_minimiser
+#print axioms Qvc.red_R1_comp
+#print axioms Qvc.red_R2_comp
+#print axioms Qvc.red_R_id
+#print axioms Qvc.red_R_affine
+#print axioms Qvc.red_penM_minimiser_spec
+#print axioms Qvc.red_penM_lift
+#print axioms Qvc.red_penM_isLeast_iff
+#print axioms Qvc.red_penM_exists_minimiser
